@@ -113,7 +113,7 @@ fn to_py(core: &Core, ind: usize) -> String {
                 if dec.is_empty() {
                     String::from("")
                 } else {
-                    newline_delimited(&dec, ind - 1)
+                    newline_delimited(&dec, ind.saturating_sub(1))
                 },
                 if dec.is_empty() {
                     String::from("")
